@@ -124,20 +124,21 @@ theorem ref_power_invariant (c : Cfg ℝ) (pref prefTotal : ℝ) :
 /-! ### saturation -/
 
 /-- the reduction is never positive: design only ever lowers a target -/
-theorem saturation_only_reduces (c : Cfg ℝ) (prefTotal prevDp prevVoa : ℝ) (a : AmpIn ℝ) (g pt dp : ℝ) :
-    powerReduction c prefTotal prevDp prevVoa a g pt dp ≤ 0 := by
+theorem saturation_only_reduces (c : Cfg ℝ) (prefTotal : ℝ) (a : AmpIn ℝ) (g pt dp : ℝ) :
+    powerReduction c prefTotal a g pt dp ≤ 0 := by
   unfold powerReduction
   split_ifs <;> simp only [pmin_eq, Nat.cast_zero] <;> first | exact min_le_right _ _ | exact min_le_left _ _
 
-/-- **power mode, imposed amplifier model: total design power never exceeds p_max, and the offset is reduced only as
-needed** — no reduction when it fits, and exactly to `p_max` when it does not -/
-theorem saturation_minimal (c : Cfg ℝ) (prefTotal prevDp prevVoa : ℝ) (a : AmpIn ℝ) (g pt dp : ℝ)
-    (hv : (a.user.variety == "") = false) (hm : c.powerMode = true) :
-    prefTotal + (dp + powerReduction c prefTotal prevDp prevVoa a g pt dp) ≤ a.sel.pMax ∧
-    (prefTotal + dp ≤ a.sel.pMax → powerReduction c prefTotal prevDp prevVoa a g pt dp = 0) ∧
+/-- **imposed amplifier model, both modes: total design power never exceeds p_max, and the offset is reduced only as
+needed** — no reduction when it fits, and exactly to `p_max` when it does not (`dp` is the offset of the amplifier
+output: in gain mode it is derived from the operator's gain, input VOA included) -/
+theorem saturation_minimal (c : Cfg ℝ) (prefTotal : ℝ) (a : AmpIn ℝ) (g pt dp : ℝ)
+    (hv : (a.user.variety == "") = false) :
+    prefTotal + (dp + powerReduction c prefTotal a g pt dp) ≤ a.sel.pMax ∧
+    (prefTotal + dp ≤ a.sel.pMax → powerReduction c prefTotal a g pt dp = 0) ∧
     (a.sel.pMax < prefTotal + dp →
-      prefTotal + (dp + powerReduction c prefTotal prevDp prevVoa a g pt dp) = a.sel.pMax) := by
-  simp only [powerReduction, hv, hm, pmin_eq, Nat.cast_zero, Bool.false_eq_true, if_false, if_true]
+      prefTotal + (dp + powerReduction c prefTotal a g pt dp) = a.sel.pMax) := by
+  simp only [powerReduction, hv, pmin_eq, Nat.cast_zero, Bool.false_eq_true, if_false]
   refine ⟨?_, ?_, ?_⟩
   · rcases le_total 0 (a.sel.pMax - (prefTotal + dp)) with h | h
     · rw [min_eq_left h]; linarith
@@ -145,27 +146,28 @@ theorem saturation_minimal (c : Cfg ℝ) (prefTotal prevDp prevVoa : ℝ) (a : A
   · intro h; exact min_eq_left (by linarith)
   · intro h; rw [min_eq_right (by linarith)]; ring
 
-/-- gain mode, imposed model: the operator's gain is reduced only when the output it would give exceeds p_max, and
-then exactly to p_max (output computed as the code computes it: without the input VOA) -/
-theorem saturation_minimal_gain_mode (c : Cfg ℝ) (prefTotal prevDp prevVoa : ℝ) (a : AmpIn ℝ) (g pt dp : ℝ)
-    (hv : (a.user.variety == "") = false) (hm : c.powerMode = false) :
-    let pout := prefTotal + prevDp - a.nodeLoss - prevVoa + g
-    pout + powerReduction c prefTotal prevDp prevVoa a g pt dp ≤ a.sel.pMax ∧
-    (pout ≤ a.sel.pMax → powerReduction c prefTotal prevDp prevVoa a g pt dp = 0) := by
-  simp only [powerReduction, hv, hm, pmin_eq, Nat.cast_zero, Bool.false_eq_true, if_false]
-  refine ⟨?_, ?_⟩
-  · rcases le_total 0 (a.sel.pMax - (prefTotal + prevDp - a.nodeLoss - prevVoa + g)) with h | h
-    · rw [min_eq_left h]; linarith
-    · rw [min_eq_right h]; linarith
-  · intro h; exact min_eq_left (by linarith)
+/-- gain mode, imposed model, operator-set gain `g`: the gain is reduced only when the output it gives — input power
+`pref_total + prev_dp − prev_voa − node_loss − in_voa` plus `g` — exceeds p_max -/
+theorem saturation_minimal_gain_mode (c : Cfg ℝ) (pref prefTotal prevDp prevVoa : ℝ) (a : AmpIn ℝ) (g : ℝ)
+    (hv : (a.user.variety == "") = false) (hm : c.powerMode = false) (hg : a.user.gain = some g)
+    (hfit : prefTotal + prevDp - prevVoa - a.nodeLoss - a.user.inVoa.getD 0 + g ≤ a.sel.pMax) :
+    (ampStep c pref prefTotal prevDp prevVoa a).reduction = 0 ∧
+    (ampStep c pref prefTotal prevDp prevVoa a).gain = g := by
+  have hr : (ampStep c pref prefTotal prevDp prevVoa a).reduction = 0 := by
+    simp only [ampStep, computeTargets, hm, hg, truthy_eq]
+    exact (saturation_minimal c prefTotal a _ _ _ hv).2.1 (by linarith)
+  refine ⟨hr, ?_⟩
+  simp only [ampStep, computeTargets, hm, hg] at hr ⊢
+  simp at hr ⊢
+  rw [hr]
 
 /-- auto-selected model (its p_max / gain_flatmax are inputs, selection is C10): after the reduction the target fits
 the model's power AND its extended gain range, and nothing is reduced when both already fit -/
-theorem saturation_auto_selected (c : Cfg ℝ) (prefTotal prevDp prevVoa : ℝ) (a : AmpIn ℝ) (g pt dp : ℝ)
+theorem saturation_auto_selected (c : Cfg ℝ) (prefTotal : ℝ) (a : AmpIn ℝ) (g pt dp : ℝ)
     (hv : (a.user.variety == "") = true) :
-    pt + powerReduction c prefTotal prevDp prevVoa a g pt dp ≤ a.sel.pMax ∧
-    g + powerReduction c prefTotal prevDp prevVoa a g pt dp ≤ a.sel.gainFlatmax + c.extGain ∧
-    (pt ≤ a.sel.pMax → g ≤ a.sel.gainFlatmax + c.extGain → powerReduction c prefTotal prevDp prevVoa a g pt dp = 0) := by
+    pt + powerReduction c prefTotal a g pt dp ≤ a.sel.pMax ∧
+    g + powerReduction c prefTotal a g pt dp ≤ a.sel.gainFlatmax + c.extGain ∧
+    (pt ≤ a.sel.pMax → g ≤ a.sel.gainFlatmax + c.extGain → powerReduction c prefTotal a g pt dp = 0) := by
   simp only [powerReduction, hv, if_true, pmin_eq, Nat.cast_zero]
   set m := min (pt - g + a.sel.gainFlatmax + c.extGain) a.sel.pMax with hmdef
   have hm1 : m ≤ pt - g + a.sel.gainFlatmax + c.extGain := min_le_left _ _
@@ -244,30 +246,16 @@ theorem voa_auto_can_exceed_pmax_fails_current :
     norm_num [r10, r06, r1]
     try norm_num [r10, r06, r1]
 
-/-- when the padded span carried no user `att_in`, the loss the gain computation uses for the span
-(`span_loss(prev_node)` with its cached `design_span_loss`) is the loss of the span -/
+/-- the loss the gain computation uses for a padded span (`span_loss(prev_node)` with its cached
+`design_span_loss`) is the loss of the span — so `ref_power_invariant` applies to padded spans as well -/
 theorem nodeLoss_is_true_loss (padding : ℝ) (r : List (Elem ℝ)) (u : String) (p : FiberP ℝ) (v : String)
     (q : FiberP ℝ) (t : List (Elem ℝ)) (hr : r = .fiber v q :: t) (hl : r.getLast? = some (.fiber u p))
-    (hnr : p.raman = false) (hq : runLoss r < padding → q.attIn = 0) :
+    (hnr : p.raman = false) :
     lastSpanLoss (padRun padding r) = runLoss (padRun padding r) := by
   obtain ⟨p', hl', _, hd⟩ := padRun_dsl padding r u p v q t hr hl hnr
   unfold lastSpanLoss
   rw [hl']
   simp only [Elem.dsl, hd]
-  by_cases hlt : runLoss r < padding
-  · simp [hlt, hq hlt]
-  · simp [hlt]
-
-/-- **Current code, defect (F10):** with a user `att_in` on a padded span the design uses 12 dB for a span of 10 dB, so
-the next amplifier's gain is 2 dB too high and `ref_power_invariant` cannot apply -/
-theorem budget_breaks_with_user_att_in_fails_current :
-    ∃ (padding : ℝ) (r : List (Elem ℝ)),
-      lastSpanLoss (padRun padding r) = 12 ∧ runLoss (padRun padding r) = 10 := by
-  obtain ⟨padding, r, u, p, h1, h2, h3⟩ := padRun_dsl_fails_current
-  refine ⟨padding, r, ?_, h2⟩
-  unfold lastSpanLoss
-  rw [h1]
-  simp [Elem.dsl, h3]
 
 /-! ### non-vacuity -/
 
